@@ -460,7 +460,8 @@ def run(ck):
         files = []
         for j, (f, t) in enumerate(zip(prog["files"], texts)):
             kind = "S" if (j == 0 or rng.random() < 0.5) else "R"
-            files.append((kind, rng.choice(["f%d.slice" % j, "dir/f%d.slice" % j, "ü%d.slice" % j]), t))
+            # names in no particular alphabetical order, with a backslash now and then (a legal character in a file name here)
+            files.append((kind, rng.choice(["f%d.slice", "dir/f%d.slice", "ü%d.slice", "zz%d.slice", "Aa%d.slice", "w\\in%d.slice", "dir/b\\s%d.slice"]) % j, t))
         if rng.random() < 0.3:
             # a file that declares a module (with attributes) and nothing else
             j = len(files)
@@ -525,6 +526,12 @@ def run(ck):
             conv_jobs.append((case, [k for k, _ in dumped], [model_file_line(parse_sexp(sx_)[0]) for _, sx_ in dumped], req))
         except (ValueError, IndexError, TypeError) as e:
             ck.violation("requests", "dump-not-convertible", case, "an AST dump the converter model can read", repr(e), kind="correspondence")
+        # the files arrive in the order in which they were named on the command line (read from the command line, not from the compiled state)
+        for role, lst in (("S", req[2]), ("R", req[3])):
+            named = [nm for k, nm, _ in files if k == role]
+            got_paths = [unhx(f_[1][2:]) if f_[1] != "s:-" else "" for f_ in lst[1:]]
+            if got_paths != named:
+                ck.violation("requests", "file-order-differs-from-command-line", case, "%s files %s" % ("source" if role == "S" else "reference", named), str(got_paths))
         exp_args = ["d"] + [[s_(k.strip()), s_(v.strip())] for k, v in args]
         exp = ["req", s_("generateCode"), exp_src, exp_ref, exp_args]
         d = first_diff(exp, req)
